@@ -146,7 +146,13 @@ func waitGoroutines(base int, d time.Duration) (int, string) {
 	}
 }
 
+// sessions that did not return so far in this run: after a few the sweep stops (each costs ~10 s of waiting)
+var c13Stuck int
+
 func runC13Case(spec c13Spec, hist []mocrelay.ClientMsg, cut int, ending, peer string) {
+	if c13Stuck >= 6 {
+		return
+	}
 	b := spec.build()
 	time.Sleep(time.Millisecond)
 	base, _ := repoGoroutines()
@@ -210,6 +216,9 @@ func runC13Case(spec c13Spec, hist []mocrelay.ClientMsg, cut int, ending, peer s
 		case <-done:
 		case <-time.After(2 * time.Second):
 		}
+	}
+	if !returned {
+		c13Stuck++
 	}
 	left, sample := waitGoroutines(base, 3*time.Second)
 	if left < 0 {
@@ -359,7 +368,7 @@ func init() {
 					done++
 				}
 			}
-			for done < n {
+			for done < n && c13Stuck < 6 {
 				spec := genC13Spec(r, g)
 				hist := genC13Hist(r, g)
 				from := 0
